@@ -21,7 +21,17 @@ func r0swap(c *core.Ctx) {
 	}
 	const R = "R0.swap"
 	c.Rule(R, "no call in main/stgutg/tglib passes two same-typed variables each named after the other's parameter (swapped arguments)")
-	norm := func(s string) string { return strings.ToLower(strings.ReplaceAll(s, "_", "")) }
+	// names are compared without case, underscores and a trailing representation word: opBytes / kHex /
+	// mncStr stand for op / k / mnc
+	norm := func(s string) string {
+		s = strings.ToLower(strings.ReplaceAll(s, "_", ""))
+		for _, suf := range []string{"bytes", "byte", "hex", "str", "string", "value", "val", "buf", "raw", "octets"} {
+			if len(s) > len(suf) && strings.HasSuffix(s, suf) {
+				return strings.TrimSuffix(s, suf)
+			}
+		}
+		return s
+	}
 	argName := func(e ast.Expr) string {
 		switch x := e.(type) {
 		case *ast.Ident:
